@@ -27,11 +27,26 @@ theorem decode_encode_digits (s : List Char) (h : ∀ c ∈ s, c.isDigit = true)
 theorem decode_encode_number (n : Nat) : dec (enc (Nat.toDigits 10 n)) = some (Nat.toDigits 10 n) :=
   decode_encode_digits _ fun _ hc => Nat.isDigit_of_mem_toDigits (by decide) (by decide) hc
 
+/-- no two digit strings share a TBCD encoding (corollary of the round trip): what the peer decodes
+    is the string that was encoded and no other -/
+theorem encode_injective (s t : List Char) (hs : ∀ c ∈ s, c.isDigit = true) (ht : ∀ c ∈ t, c.isDigit = true)
+    (h : enc s = enc t) : s = t := by
+  have h1 := decode_encode_digits s hs
+  have h2 := decode_encode_digits t ht
+  rw [h, h2] at h1
+  exact (Option.some.inj h1).symm
+
 /-- length of the encoding: one octet (two hex characters) per started pair -/
 theorem encode_length : ∀ s : List Char, (enc s).length = 2 * ((s.length + 1) / 2)
   | [] => rfl
   | [_] => by simp [enc]
   | _ :: _ :: rest => by simp [enc, encode_length rest]; omega
+
+/-- … and a string of even length never collides with one of odd length even after the filler is dropped -/
+theorem encode_length_parity (s t : List Char) (h : enc s = enc t) : (s.length + 1) / 2 = (t.length + 1) / 2 := by
+  have := congrArg List.length h
+  rw [encode_length, encode_length] at this
+  omega
 
 /-- nibble-swapped layout: in octet i the second hex character is digit 2i and the first is digit
     2i+1, or the filler when the string has ended -/
